@@ -229,6 +229,9 @@ def break_release(data: bytes, what: str) -> bytes:
     return "\n".join(lines).encode()
 
 
+RROWS, RSKIPPED = [], []   # the release rounds of every loop run, replayed on ReleaseStage.v
+
+
 def loop_case(rep, rng, sb, tag):
     """InRelease and Release of one codename disagree for the first k fetch rounds (the upstream replaces
     the Release between attempts), release_files_retries = R.  Expected: min(k+1, max(1,R)) rounds; the
@@ -290,7 +293,13 @@ def loop_case(rep, rng, sb, tag):
                         for fl in ("InRelease", "Release", "Release.gpg")}}
     else:
         faults = {url: {pth: {"first": [bad] * min(k, 40), "rest": good_resp if k < 99 else bad}}}
-    res = P.run_tool(scn, base, faults=faults, upstream_files=files)
+    with R_.Instrument() as inst:
+        res = P.run_tool(scn, base, faults=faults, upstream_files=files)
+    rr, rm = R_.release_tie_row(inst.obs.get(url, {}), files[url], faults.get(url, {}))
+    if rr is None:
+        RSKIPPED.append((tag, rm))
+    else:
+        RROWS.append(({"loop": tag, "retries": retries, "k": k}, rr[0], rr[1], rm))
     up = res.ups[url.rstrip("/")]
     other = f"dists/{cn}/{'InRelease' if victim == 'Release' else 'Release'}"
     rounds = up.counts.get(other, 0)
@@ -348,6 +357,8 @@ def run_loop(rep, n):
     mism, errors = C.run_mismatch_shards(rep.prop, "loop", header, "m_loop", "eq_loop", [(a, b) for _, a, b in rows], shard=300)
     C.tie_verdict(rep, "loop", mism, errors, [c for c, _, _ in rows], found, header=header, fn="m_loop",
                   coq_inputs=[a for _, a, _ in rows])
+    from .c08 import release_tie
+    found |= release_tie(rep, RROWS, RSKIPPED, found)
     return found
 
 
